@@ -18,7 +18,7 @@ class C06(Prop):
             'datasets 2-4 attributes of sizes 2-4, 12-~200 records (uniform / skewed / sparse-correlated / boundary: cell counts T and T-1 around the public '
             'support threshold of MST resp. Adaptive Grid); neighbours by removing / adding one record (MST, AIM, Adaptive Grid, MWEM bounded=False) or '
             'replacing one record (MWEM bounded=True); epsilon in {0.5,1,5} x delta in {1e-9,1e-5,0.1}, rounds, noise kind, bounded flag, workloads, '
-            'targets / split / threshold; FactoredInference.iters capped at 25/60.  non-trivial = D\' differs from D as a multiset of records and the '
+            'targets / split / threshold; FactoredInference.iters capped at 15/40.  non-trivial = D\' differs from D as a multiset of records and the '
             'domain has >= 2 attributes; distinct by the whole case')
     trusted_base = ['numpy RandomState (harness-owned outcome sequences) and numpy.random.seed for the unwrapped global stream',
                     'the wrapped samplers are the only randomness the mechanisms use besides np.random.shuffle (checked by reading the four files)',
